@@ -232,6 +232,22 @@ def run_case(W, rec, cfg, ops):
         rec.violation("C09/pos-differs-from-bytes-returned", f"_pos {st._pos} vs returned {len(out)}; {case}", case, monitor="byte-accounting")
         return
     short = len(data) < L
+    if u.raised and term == "ClientDisconnected" and wrap is None:
+        # history: the application (or a framework's error handler) reads on after the failed read.  The wrapped
+        # stream's error was transient; whatever the second look returns, a normal end of the body may only be
+        # reported once the wrapped stream really has nothing left within the limit.
+        rec.observe("reads_after_a_failed_read")
+        try:
+            rest = st.read()
+            again = None
+        except (ClientDisconnected, RequestEntityTooLarge) as e2:
+            rest, again = b"", type(e2).__name__
+        except Exception as e2:  # noqa: BLE001
+            rec.violation(f"C09/unrelated-exception:{type(e2).__name__}", f"read() after a failed read: {e2!r}; {case}", case, monitor="exception-type")
+            return
+        if again is None and u.pos < min(len(data), max(L, 0)):
+            rec.violation("C09/silent-truncation", f"after a failed read, read() returned {rest!r} and a normal end although the wrapped stream still holds {len(data) - u.pos} bytes (consumed {u.pos}, limit {L}); {case}", case, monitor="model")
+            return
     if u.raised:
         rec.observe("underlying_error_injected_and_hit" + (":is_max" if is_max else ""))
         if term is None:
